@@ -32,11 +32,29 @@ Theorem C13_layer_list_spec : forall L d tr pat q, wf_layer L ->
   (In q (l_list L (d, tr) pat) <-> present L q /\ exists rel, q = d ++ rel /\ matchesP pat rel).
 Proof. exact l_list_wf. Qed.
 
+(* both together: on well-formed layers (an invariant of all histories, below) the listing consists exactly of the
+   rendered entries that SOME layer holds strictly under the directory and that the pattern selects *)
+Theorem C13_list_union : forall S d pat loc s dd tr l,
+  wf_fs S -> fs_addr S d loc = FOk (s, (dd, tr)) -> fs_list S d pat loc = FOk l ->
+  forall x, In x l <-> exists L q rel, In L (layers S) /\ present L q /\ q = dd ++ rel /\ matchesP pat rel /\ x = render_path q.
+Proof. exact list_union. Qed.
+
 (* ascending in the strict order: sorted and duplicate-free *)
 Theorem C13_list_sorted : forall S d pat loc l, fs_list S d pat loc = FOk l -> StronglySorted bytes_lt l.
 Proof. exact list_sorted. Qed.
 Theorem C13_list_nodup : forall S d pat loc l, fs_list S d pat loc = FOk l -> NoDup l.
 Proof. intros S d pat loc l H. exact (strictly_sorted_nodup l (list_sorted S d pat loc l H)). Qed.
+
+(* membership + strict order determine the result: any strictly sorted list with those members IS the listing,
+   and the order in which the layers are stacked does not matter for listings *)
+Theorem C13_list_canonical : forall S d pat loc s a l l',
+  fs_addr S d loc = FOk (s, a) -> fs_list S d pat loc = FOk l -> StronglySorted bytes_lt l' ->
+  (forall x, In x l' <-> exists L q, In L (layers S) /\ In q (l_list L a pat) /\ x = render_path q) -> l' = l.
+Proof. exact list_canonical. Qed.
+Theorem C13_list_layer_order : forall S S' d pat loc,
+  conf S' = conf S -> lng S' = lng S -> (forall L, In L (layers S') <-> In L (layers S)) ->
+  fs_list S' d pat loc = fs_list S d pat loc.
+Proof. exact list_layer_order. Qed.
 
 (* sub-directories: exactly the immediate children that are directories in some layer, sorted *)
 Theorem C13_subdirs_spec : forall S d loc s a l,
